@@ -18,6 +18,8 @@ pub enum Kind {
     DespiteGet,
     /// PUT with `content-length: n`
     Sized(u64),
+    /// POST over HTTP/1.0 without framing header (the library still frames it chunked)
+    DefaultChunkedHttp10,
 }
 
 impl Kind {
@@ -70,6 +72,7 @@ impl Sender {
             Kind::ExplicitTe => b.method(Method::POST).header("transfer-encoding", "chunked"),
             Kind::DespiteGet => b.method(Method::GET),
             Kind::Sized(n) => b.method(Method::PUT).header("content-length", n.to_string()),
+            Kind::DefaultChunkedHttp10 => b.method(Method::POST).version(ureq_proto::http::Version::HTTP_10),
         };
         let req = b.body(()).map_err(|e| e.to_string())?;
         let mut head = [0u8; 512];
